@@ -76,6 +76,16 @@ DETECTED = {
     'C16-f': ['C16: H16h exception:KeyError (added after the miss)'],
     'C18-f': ['C18: H18i element-value-supersedes-the-option (added after the miss)'],
     'C20-f': ['C20: H20a / H20p point-iff-period-elapsed'],
+    'C02-f': ['C02: H02a documented-edge FINAL->DISTRIBUTION (added after the miss)'],
+    'C04-f': ['C04: H04d (added after the miss)', 'C13: H13d'],
+    'C07-f': ['C07: H07b process-that-ran-only-there-is-reported-fatal (added after the miss)', 'C11: H11-n3 op:loss'],
+    'C10-f': ['C10: H10-stop job-abandoned-when-target-lost'],
+    'C11-f': ['C11: H11-gate (added after the miss)', 'C13: H13d'],
+    'C13-f': ['C13: H13d forced-state (added after the miss)'],
+    'C14-f': ['C14: H14b-late added-command-config-order (added after the miss)'],
+    'C15-f': ['C15: H15d (added after the miss)'],
+    'C17-f': ['C17: H17 / H17h documented-fault-for-bad-parameter'],
+    'C19-f': ['C19: H19a-full prediction-changes-nothing with stored extra arguments (added after the miss)'],
 }
 for line in open(sys.argv[1]):
     m = re.match(r'(C\d\d-\w): without=\[(.*?)\] with=\[(.*?)\] suite=\[(.*)\]', line.strip())
